@@ -7,6 +7,7 @@ import (
 	"io"
 	"net"
 	"net/http"
+	"os"
 	"sort"
 	"strings"
 	"sync"
@@ -340,6 +341,15 @@ func runC16(s c16Seq) (sig, msg string) {
 		}
 	}
 	if s.Final == "server-shutdown" {
+		if s.ShutdownAfter == 1 {
+			// somebody else's plain HTTP connection on the upstream port is stuck in
+			// the middle of its request: the graceful part of the shutdown cannot
+			// finish within the grace period; the upstream connections end anyway
+			if sc, err := net.DialTimeout("tcp", nd.UpstreamAddr(), 5*time.Second); err == nil {
+				_, _ = sc.Write([]byte("GET /piko/v1/upstream/other HTTP/1.1\r\nHost: stalled\r\n"))
+				defer sc.Close()
+			}
+		}
 		done := make(chan struct{})
 		go func() { nd.Stop(); close(done) }()
 		select {
@@ -379,14 +389,37 @@ func (u *rawUpstream) setEnded() {
 
 // disable-disconnect-on-expiry: the connection outlives the token
 func runC16NoDisconnect() (sig, msg string) {
+	// the option is honoured whatever kind of key verifies the token
+	for _, keys := range []string{"hmac", "jwks"} {
+		if sig, msg = runC16NoDisconnectWith(keys); sig != "" {
+			return sig, "keys from " + keys + ": " + msg
+		}
+	}
+	return "", ""
+}
+
+func runC16NoDisconnectWith(keys string) (sig, msg string) {
+	tok := c16Token(2)
+	ac := auth.Config{HMACSecretKey: string(e4.Keys().HMAC), DisableDisconnectOnExpiry: true}
+	if keys == "jwks" {
+		dir, err := os.MkdirTemp("", "verif-c16-jwks")
+		if err != nil {
+			evid.Fatal("tmp: %v", err)
+		}
+		defer os.RemoveAll(dir)
+		ac = auth.Config{DisableDisconnectOnExpiry: true}
+		ac.JWKS.Endpoint = "file://" + e4.WriteJWKS(dir)
+		d := e4.TokenDesc{Alg: "RS256", Key: "configured", Tamper: "none", Exp: "future", Nbf: "absent", Aud: "absent", Iss: "absent", ExpIn: 2}
+		tok = d.Mint()
+	}
 	nd, err := e4.StartNode(nil, func(c *config.Config) {
-		c.Upstream.Auth = auth.Config{HMACSecretKey: string(e4.Keys().HMAC), DisableDisconnectOnExpiry: true}
+		c.Upstream.Auth = ac
 	})
 	if err != nil {
 		evid.Fatal("start node: %v", err)
 	}
 	defer nd.Stop()
-	u, err := dialRaw(nd.UpstreamAddr(), "e1", "u0", c16Token(2))
+	u, err := dialRaw(nd.UpstreamAddr(), "e1", "u0", tok)
 	if err != nil {
 		return "connect-failed", err.Error()
 	}
